@@ -205,6 +205,15 @@ func (e *Engine) invoke(st *State, ci *callInfo, isDeferred, isSpawn bool) []mul
 			if len(ci.args) == 1 && ci.args[0].Kind == KClosure {
 				return e.rangeCallback(st, ci)
 			}
+			// a method value or declared function as callback: its body is the loop body
+			if len(ci.args) == 1 && ci.args[0].Kind == KFuncRef {
+				if fn, ok := ci.args[0].Obj.(*types.Func); ok {
+					if fd := e.Decls[fn.Origin()]; fd != nil && fd.Body != nil && st.frame.Depth < e.Policy.MaxDepth && !st.frame.active(fn.Origin()) &&
+						e.Policy.Inline != nil && e.Policy.Inline(fn.Origin(), st.frame.Depth) {
+						return e.rangeCallbackDecl(st, ci, fn.Origin(), fd)
+					}
+				}
+			}
 		}
 		if fd := e.Decls[ci.callee]; fd != nil && !ci.iface && st.frame.Depth < e.Policy.MaxDepth &&
 			!st.frame.active(ci.callee) && e.Policy.Inline != nil && e.Policy.Inline(ci.callee, st.frame.Depth) {
@@ -359,6 +368,34 @@ func (e *Engine) rangeCallback(st *State, ci *callInfo) []multiOut {
 		}
 	}
 	for _, o := range e.inlineBody(st, inner, nil, lit.Type, lit.Body, lit, false, false) {
+		e.emit(o.st, &Event{Kind: EvLoopEnd, Pos: ci.call.End()})
+		o.st.loops = o.st.loops[:len(o.st.loops)-1]
+		e.havoc(o.st, assigned, ci.call.Pos())
+		outs = append(outs, multiOut{o.st, nil})
+	}
+	return outs
+}
+
+// rangeCallbackDecl: sync.Map.Range with a declared function / method value as callback.
+func (e *Engine) rangeCallbackDecl(st *State, ci *callInfo, fn *types.Func, fd *ast.FuncDecl) []multiOut {
+	e.emit(st, &Event{Kind: EvCall, Pos: ci.call.Pos(), Callee: ci.callee, Recv: ci.recv, Args: ci.args, Note: "range"})
+	zero := st.clone()
+	outs := []multiOut{{zero, nil}}
+	st.loops = append(st.loops, ci.call)
+	e.emit(st, &Event{Kind: EvLoopBegin, Pos: ci.call.Pos(), Note: "Range", Recv: ci.recv})
+	assigned := e.assignedIn(fd.Body)
+	inner := &callInfo{st: st, call: ci.call, callee: fn, recv: ci.args[0].Recv}
+	if fd.Type.Params != nil {
+		for _, p := range fd.Type.Params.List {
+			for range p.Names {
+				a := e.newVal(KRangeVal, e.Info.TypeOf(p.Type), fd.Pos())
+				a.Src = ci.recv
+				inner.args = append(inner.args, a)
+			}
+		}
+	}
+	for _, o := range e.inlineBody(st, inner, fd.Recv, fd.Type, fd.Body, nil, false, false) {
+		// the callback's result (continue?) is reported like a literal's: as the exit event of a frame under the Range loop
 		e.emit(o.st, &Event{Kind: EvLoopEnd, Pos: ci.call.End()})
 		o.st.loops = o.st.loops[:len(o.st.loops)-1]
 		e.havoc(o.st, assigned, ci.call.Pos())
